@@ -36,8 +36,8 @@ func (e *Engine) verifyFunc(name, prop string, cfg solverCfg, verbose bool) *fun
 	}
 	fr.VC = vc
 	glueCfg := cfg
-	if glueCfg.timeoutMs > 2000*loadScale {
-		glueCfg.timeoutMs = 2000 * loadScale
+	if glueCfg.timeoutMs > 2000*shortScale {
+		glueCfg.timeoutMs = 2000 * shortScale
 	}
 	for iter := 1; iter <= 12; iter++ {
 		fr.Iter = iter
